@@ -6,8 +6,8 @@ import json, os, re, subprocess, sys, glob, shutil
 REPO = os.environ.get("MX_REPO", "/repo")
 VERIF = os.environ.get("MX_VERIF", "/verif")
 REL = {
- "C01": ["C01","C11"], "C02": ["C02","C16","C12"], "C03": ["C03","C11"], "C04": ["C04","C13","C08"],
- "C05": ["C05","C01"], "C06": ["C06","C05"], "C07": ["C07","C09","C08"], "C08": ["C08"], "C09": ["C09","C08"],
+ "C01": ["C01","C11"], "C02": ["C02","C16","C12"], "C03": ["C03","C11"], "C04": ["C04","C03"],
+ "C05": ["C05","C01"], "C06": ["C06","C05"], "C07": ["C07","C09"], "C08": ["C08"], "C09": ["C09","C08"],
  "C10": ["C10"], "C11": ["C11","C08"], "C12": ["C12","C02"], "C13": ["C13","C08"], "C14": ["C14","C13","C08"],
  "C15": ["C15"], "C16": ["C16","C02"], "C17": ["C17"],
 }
